@@ -4,7 +4,8 @@ good); Props/C16.lean proves that a field read across the cut never exceeds the 
 their defaults, and that a count-prefixed array read from a prefix allocates no more than the whole file does.
 D: (a) correspondence: the model's reads against NiIStream on random byte strings, cut points and field widths; (b) truncation
    sweep under ASan/UBSan: prefixes of every sample file (every byte of the first 400 and last 64, strided in between;
-   thorough: every byte of files below 16 KB) and of generated instances of every block type; each prefix is loaded, the result
+   thorough: every byte of files below 16 KB), of constructed NiTriStrips models (every byte) and of generated instances of every
+   block type; each prefix is loaded, the result
    queried (battery), saved, copied and destroyed."""
 import json
 import os
@@ -34,6 +35,15 @@ def run(ctx):
                 spec = f"stride:{max(1, size // 400) + rng.randrange(0, 3)}"
             lines.append(f"c16.run load:{f} {spec}")
             labels.append(os.path.basename(f))
+        # strip geometry (no sample carries any): a NiTriStrips shape with a few strips, built by the library itself, every cut
+        cdir = os.path.join(C.CACHE, "constructed")
+        os.makedirs(cdir, exist_ok=True)
+        jobs = [(v, n, os.path.join(cdir, f"c16-strips-{v}-{n}.nif")) for v in ("ob", "fo3", "sk") for n in (1, 3)]
+        built = C.run_lines_parallel(ctx.harness, [f"fs new:{v} stripshape:{n} save:{p}:raw" for v, n, p in jobs])
+        for (v, n, p), o in zip(jobs, built):
+            if all(x.startswith("ok") for x in o.split(" ")):
+                lines.append(f"c16.run load:{p} all")
+                labels.append(f"strips/{v}/{n}")
         types = C.run_lines(ctx.harness, ["gen.types"])[0].split(",")
         gvers = C.run_lines(ctx.harness, ["gen.versions"])[0].split(",")
         for t in types:
